@@ -21,6 +21,10 @@ pub struct Case {
     /// size: (kind, block size, at which multiple, records that follow are kept)
     #[serde(default)]
     pub block: Option<(u8, usize, u8)>,
+    /// bytes of left-over text at the output location before the run (a file, or kmers.counts / kmers.vectors in
+    /// the output directory)
+    #[serde(default)]
+    pub stale: u32,
 }
 
 /// the record list as it is written: with the degenerate block and the aligned record start
@@ -286,6 +290,20 @@ pub fn check_case(c0: &Case) -> Verdict {
     let input = io::write_input(dir.path(), "in", &c.recs, &cont);
     let altp = io::write_input(dir.path(), "alt", &c.alt, &Container::plain_fasta());
     let out = dir.path().join("out");
+    if c.stale > 0 {
+        io::set_stale(c.stale as usize);
+        if cmd.out_is_dir() {
+            std::fs::create_dir_all(&out).unwrap();
+            io::plant_stale(&out.join("kmers.vectors"));
+            if c.stale % 2 == 0 {
+                io::plant_stale(&out.join("kmers.counts"));
+            }
+        } else {
+            io::plant_stale(&out);
+        }
+        io::set_stale(0);
+        v.class("output-location-holds-an-earlier-result");
+    }
     let o = if c.via_cli {
         let data = std::fs::read(&input).unwrap();
         run_via_cli(cmd, &input, Some(&altp), &out, Some(&data))
@@ -339,7 +357,7 @@ fn case_strategy(tier: Tier, cli: bool) -> BoxedStrategy<Case> {
                 _ => [k, 0, 0],
             };
             let p = RecParams { max_records: tier.pick(8, 20), scale: bounds[0].max(1), max_len: 90, degenerate_w: 7, bounds, nuc_only: false };
-            (gen::records_in_container(p), gen::records(p), prop_oneof![6 => Just(None), 1 => (any::<u16>(), gen::utf8_seq(40)).prop_map(Some)], prop_oneof![2 => Just(0u8), 1 => 0u8..128]).prop_map(move |((mut recs, mut cont), alt, utf8, envp)| {
+            (gen::records_in_container(p), gen::records(p), prop_oneof![6 => Just(None), 1 => (any::<u16>(), gen::utf8_seq(40)).prop_map(Some)], prop_oneof![1 => Just(0u8), 1 => 0u8..128]).prop_map(move |((mut recs, mut cont), alt, utf8, envp)| {
                 // one record made of (or mixed with) two-byte UTF-8 characters: ambiguous bytes >= 0x80;
                 // only on unwrapped lines, and not for whole-sequence CGR cases that must stay nucleotide-only
                 if let Some((i, s)) = utf8 {
@@ -354,7 +372,7 @@ fn case_strategy(tier: Tier, cli: bool) -> BoxedStrategy<Case> {
                 }
                 let mut cmd = cmd.clone();
                 cmd.env_profile = if cli { envp } else { 0 };
-                Case { recs, alt, cont, cmd, via_cli: cli, align: None, block: None }
+                Case { recs, alt, cont, cmd, via_cli: cli, align: None, block: None, stale: if envp % 4 == 1 { 1 + (envp as u32) * 997 } else { 0 } }
             })
         })
         .boxed()
